@@ -1470,6 +1470,17 @@ impl<Front: SocketHandler, L: ListenerHandler> SessionState for Pipe<Front, L> {
         if let Some(backend) = self.backend.as_mut() {
             let mut backend = backend.borrow_mut();
             backend.active_requests = backend.active_requests.saturating_sub(1);
+            // the pipe took the backend connection over from the mux router at
+            // upgrade time: release what `Router::connect` accounted for it
+            backend.dec_connections();
+            gauge_add!(names::backend::CONNECTIONS, -1);
+            gauge_add!(names::backend::POOL_SIZE, -1);
+            gauge_add!(
+                names::backend::CONNECTIONS_PER_BACKEND,
+                -1,
+                self.cluster_id.as_deref(),
+                Some(&backend.backend_id)
+            );
         }
     }
 
